@@ -102,6 +102,20 @@ Theorem C06_leaf_code :
 Proof. exact (conj same_members_code same_keys_code). Qed.
 Print Assumptions C06_leaf_code.
 
+(* == on scalars, which the leaf semantics and SameMembers rest on, is an equivalence that identifies 1, True
+   and 1.0 (0, False and 0.0) and never a number with None, '', b'', [] or {} *)
+Theorem C06_scalar_eq :
+  (forall x, scalar x = true -> veq x x = true)
+  /\ (forall x y, scalar x = true -> veq x y = veq y x)
+  /\ (forall x y z, scalar x = true -> scalar y = true -> veq x y = true -> veq y z = true -> veq x z = true)
+  /\ (forall z b h, veq (VInt z) (VBool b) = Z.eqb z (if b then 1 else 0)
+                    /\ veq (VInt z) (VFloat h) = Z.eqb (2 * z) h
+                    /\ veq (VBool b) (VFloat h) = Z.eqb (if b then 2 else 0) h)
+  /\ (forall x, num2 x <> None -> veq x VNone = false /\ veq x (VStr []) = false /\ veq x (VBytes []) = false
+                                   /\ veq x (VList []) = false /\ veq x (VDict []) = false).
+Proof. exact scalar_eq_facts. Qed.
+Print Assumptions C06_scalar_eq.
+
 (* non-vacuity: a depth-3 expression with an abstract leaf, a set, a dict and a first_only list *)
 Example C06_example :
   let ls := leafsem_of [[sn [97; 98]]] in
@@ -114,3 +128,20 @@ Example C06_example :
   /\ match_ ls (fun _ i => i) m v = None /\ match_ ls (fun _ i => 1 - i) m v = None
   /\ match_ ls (fun _ i => i) (Not m) v = Some MUnexp.
 Proof. vm_compute. repeat split. Qed.
+
+(* non-vacuity for falsy and cross-type values: the key 1 named as True, the value 1.0 == True; a surplus key
+   mismatches although what it holds is False / 0.0 / None / []; an empty list fails AnyMatch under a dict key *)
+Example C06_example_falsy :
+  let ls := leafsem_of [] in
+  let rk := fun (_ i : nat) => i in
+  let m := MatchesDict [(KInt 1, Equals (VBool true))] in
+  let n := ContainedByDict [(KInt 1, AnyMatch Always)] in
+  key_of (VBool true) = Some (KInt 1) /\ key_of (VFloat 2) = Some (KInt 1)
+  /\ dom ls m (VDict [(KInt 1, VFloat 2)]) = true /\ match_ ls rk m (VDict [(KInt 1, VFloat 2)]) = None
+  /\ Forall (fun x => dom ls m (VDict [(KInt 1, VInt 1); (KInt 0, x)]) = true
+                      /\ sem ls m (VDict [(KInt 1, VInt 1); (KInt 0, x)]) = false
+                      /\ match_ ls rk m (VDict [(KInt 1, VInt 1); (KInt 0, x)]) <> None)
+            [VBool false; VFloat 0; VInt 0; VNone; VStr []; VBytes []; VList []; VDict []]
+  /\ sem ls n (VDict [(KInt 1, VList [])]) = false /\ match_ ls rk n (VDict [(KInt 1, VList [])]) <> None
+  /\ sem ls n (VDict []) = true /\ match_ ls rk n (VDict []) = None.
+Proof. vm_compute. repeat split; try discriminate; repeat constructor; try discriminate. Qed.
